@@ -1,6 +1,7 @@
 package main
 
 import (
+	"regexp"
 	"fmt"
 	"go/token"
 	"go/types"
@@ -158,6 +159,14 @@ func (ex *Exec) runRoot() {
 				ex.emit("(assert " + not(eq(v.L[0], o)) + ")")
 			}
 			fvRefs = append(fvRefs, v.L[0])
+		}
+	}
+	// "called(<callee>)" in a clause: a flag per named callee, false on entry, set at every call of it
+	if ct != nil {
+		for _, cl := range append(append([]Clause{}, ct.Ensures...), ct.AtExit...) {
+			for _, mm := range calledRe.FindAllStringSubmatch(cl.Src, -1) {
+				ex.heapSet(st, "G|called|"+mm[1], sBool, "false")
+			}
 		}
 	}
 	pre := st.clone()
@@ -1127,6 +1136,8 @@ func (ex *Exec) applyContract(fr *Frame, st *State, fn *ssa.Function, ct *FuncCo
 	return res
 }
 
+var calledRe = regexp.MustCompile(`called\("([^"]+)"\)`)
+
 // checkCallSites evaluates "callsite <callee> label: expr" clauses of the root contract.
 func (ex *Exec) checkCallSites(fr *Frame, st *State, callee string, args []Val, pos token.Pos) {
 	root := ex.rootFrame
@@ -1138,6 +1149,14 @@ func (ex *Exec) checkCallSites(fr *Frame, st *State, callee string, args []Val, 
 			ex.cut = true
 			ex.note("verified only up to the first call of %s (cutafter): no obligations are generated for the rest of the body", callee)
 		}()
+	}
+	for k := range st.heap {
+		if strings.HasPrefix(k, "G|called|") {
+			want := strings.TrimPrefix(k, "G|called|")
+			if want == callee || strings.HasSuffix(callee, "."+want) || strings.HasSuffix(want, "."+callee) {
+				ex.heapSet(st, k, sBool, "true")
+			}
+		}
 	}
 	ex.callOrdinal[callee]++
 	ord := ex.callOrdinal[callee]
